@@ -15,9 +15,11 @@ import (
 	"fmt"
 	"io"
 	"os"
+	"path/filepath"
 	"strings"
 
 	"google.golang.org/protobuf/proto"
+	"google.golang.org/protobuf/types/descriptorpb"
 	"google.golang.org/protobuf/types/pluginpb"
 )
 
@@ -38,7 +40,150 @@ func fail(format string, args ...any) {
 	os.Exit(1)
 }
 
+// protocMain is the fake compiler (round 4). buf's protoc proxy handler calls
+//
+//	protoc [extra args] --version
+//	protoc [extra args] --descriptor_set_in=<file> --<name>_out=<dir> [--experimental_allow_proto3_optional] [--<name>_opt=<parameter>] <files to generate>
+//
+// The second form is recorded under rec= of the parameter as a CodeGeneratorRequest-shaped message
+// (<id>.*.protocreq: file_to_generate = the positional arguments, parameter = the opt, proto_file = the descriptor
+// set exactly as received - what the compiler is given to derive both views from) plus the argument list
+// (<id>.*.protocargs, JSON), and answered by writing the scripted plain entries and, with per_file, one
+// "<F>.<id>.txt" per file to generate into <dir>. An extra argument --verif-version=<v> chooses the reported version.
+func protocMain(args []string) {
+	version := "27.1"
+	var setIn, outName, outDir, param string
+	var files []string
+	isVersion := false
+	nSetIn, nOut, nOpt := 0, 0, 0
+	for _, a := range args {
+		switch {
+		case a == "--version":
+			isVersion = true
+		case strings.HasPrefix(a, "--verif-version="):
+			version = strings.TrimPrefix(a, "--verif-version=")
+		case strings.HasPrefix(a, "--descriptor_set_in="):
+			setIn = strings.TrimPrefix(a, "--descriptor_set_in=")
+			nSetIn++
+		case strings.HasPrefix(a, "--"):
+			k, v, ok := strings.Cut(a[2:], "=")
+			switch {
+			case ok && strings.HasSuffix(k, "_out"):
+				outName, outDir = strings.TrimSuffix(k, "_out"), v
+				nOut++
+			case ok && strings.HasSuffix(k, "_opt"):
+				if strings.TrimSuffix(k, "_opt") != outName {
+					fail("protoc: %s does not belong to --%s_out", a, outName)
+				}
+				param = v
+				nOpt++
+			}
+		default:
+			files = append(files, a)
+		}
+	}
+	if isVersion {
+		fmt.Println("libprotoc " + version)
+		return
+	}
+	if nSetIn != 1 || nOut != 1 || nOpt > 1 {
+		fail("protoc: unexpected arguments %q", args)
+	}
+	var data []byte
+	var err error
+	if setIn == "/dev/stdin" {
+		data, err = io.ReadAll(os.Stdin)
+	} else {
+		data, err = os.ReadFile(setIn)
+	}
+	if err != nil {
+		fail("protoc: descriptor set: %v", err)
+	}
+	set := &descriptorpb.FileDescriptorSet{}
+	if err := proto.Unmarshal(data, set); err != nil {
+		fail("protoc: descriptor set: %v", err)
+	}
+	params := map[string]string{}
+	for _, kv := range strings.Split(param, ",") {
+		if k, v, ok := strings.Cut(kv, "="); ok {
+			params[k] = v
+		}
+	}
+	id := params["id"]
+	if id == "" {
+		fail("protoc: no id in parameter %q", param)
+	}
+	if rec := params["rec"]; rec != "" {
+		req := &pluginpb.CodeGeneratorRequest{FileToGenerate: files, ProtoFile: set.GetFile()}
+		if nOpt == 1 {
+			req.Parameter = proto.String(param)
+		}
+		b, err := proto.Marshal(req)
+		if err != nil {
+			fail("protoc: record: %v", err)
+		}
+		f, err := os.CreateTemp(rec, id+".*.protocreq")
+		if err != nil {
+			fail("protoc: record: %v", err)
+		}
+		if _, err := f.Write(b); err != nil {
+			fail("protoc: record: %v", err)
+		}
+		if err := f.Close(); err != nil {
+			fail("protoc: record: %v", err)
+		}
+		ab, _ := json.Marshal(map[string]any{"args": args, "plugin_name": outName})
+		if err := os.WriteFile(strings.TrimSuffix(f.Name(), ".protocreq")+".protocargs", ab, 0o644); err != nil {
+			fail("protoc: record: %v", err)
+		}
+	}
+	var sc script
+	if path := params["script"]; path != "" {
+		b, err := os.ReadFile(path)
+		if err != nil {
+			fail("protoc: script: %v", err)
+		}
+		if err := json.Unmarshal(b, &sc); err != nil {
+			fail("protoc: script: %v", err)
+		}
+	}
+	toGenerate := map[string]bool{}
+	for _, f := range files {
+		toGenerate[f] = true
+	}
+	write := func(name, content string) {
+		// a compiler writes below its out directory: only clean relative names are meaningful here
+		if name == "" || filepath.IsAbs(name) || filepath.Clean(name) != name || name == ".." || strings.HasPrefix(name, "../") {
+			return
+		}
+		p := filepath.Join(outDir, name)
+		if err := os.MkdirAll(filepath.Dir(p), 0o755); err != nil {
+			fail("protoc: write: %v", err)
+		}
+		if err := os.WriteFile(p, []byte(content), 0o644); err != nil {
+			fail("protoc: write: %v", err)
+		}
+	}
+	for _, e := range sc.Entries {
+		if (e.Trigger != "" && !toGenerate[e.Trigger]) || e.InsertionPoint != "" {
+			continue
+		}
+		write(e.Name, e.Content)
+	}
+	if sc.PerFile {
+		for _, f := range files {
+			write(f+"."+id+".txt", "<<"+id+">> generated from "+f+"\n")
+		}
+	}
+}
+
 func main() {
+	// round 4: a protoc plugin is started without arguments; with arguments this binary plays the compiler
+	// `protoc` for buf's protoc proxy handler (protoc_builtin plugins)
+	if len(os.Args) > 1 {
+		protocMain(os.Args[1:])
+		return
+	}
 	in, err := io.ReadAll(os.Stdin)
 	if err != nil {
 		fail("read: %v", err)
